@@ -204,7 +204,7 @@ func (vc *VC) readStruct(st *State, ref Term, structSort string) Term {
 func (vc *VC) writeStruct(st *State, ref Term, structSort string, v Term) {
 	si := vc.sorts.StructInfo(structSort)
 	for _, f := range si.fields {
-		vc.writeField(st, ref, structSort, f.name, Term{app(fieldSel(structSort, f.name), v.S), f.sort})
+		vc.writeField(st, ref, structSort, f.name, Term{vc.sel(structSort, f.name, v.S), f.sort})
 	}
 }
 
@@ -234,7 +234,7 @@ func (vc *VC) updatePath(cur Term, path []Step, v Term) Term {
 		si := vc.sorts.StructInfo(s.StructSort)
 		parts := []string{"mk_" + s.StructSort}
 		for _, f := range si.fields {
-			sel := Term{app(fieldSel(s.StructSort, f.name), cur.S), f.sort}
+			sel := Term{vc.sel(s.StructSort, f.name, cur.S), f.sort}
 			if f.name == s.FieldName {
 				parts = append(parts, vc.updatePath(sel, path[1:], v).S)
 			} else {
@@ -296,7 +296,7 @@ func (vc *VC) readPath(cur Term, path []Step) Term {
 					fs = f.sort
 				}
 			}
-			cur = Term{app(fieldSel(s.StructSort, s.FieldName), cur.S), fs}
+			cur = Term{vc.sel(s.StructSort, s.FieldName, cur.S), fs}
 		} else {
 			if lit, ok := vc.seqLits[cur.S]; ok {
 				if n, ok2 := parseSmallInt(s.Idx.S); ok2 && n < len(lit) {
@@ -819,11 +819,11 @@ func (ex *Exec) runDefers(fr *Frame, st *State, k func(st *State, panicked bool)
 	})
 }
 
-func (ex *Exec) newCell(st *State, a *ssa.Alloc) *Cell {
+func (ex *Exec) newCell(st *State, a *ssa.Alloc, frame int) *Cell {
 	vc := ex.vc
 	vc.cellCtr++
 	et := a.Type().(*types.Pointer).Elem()
-	c := &Cell{id: vc.cellCtr, name: a.Comment, typ: et, sort: vc.sorts.SortOf(et), alloc: a}
+	c := &Cell{id: vc.cellCtr, frame: frame, name: a.Comment, typ: et, sort: vc.sorts.SortOf(et), alloc: a}
 	st.order = append(st.order, c)
 	return c
 }
@@ -917,7 +917,7 @@ func (ex *Exec) instr(fr *Frame, ins ssa.Instruction, pred *ssa.BasicBlock, st *
 				return true
 			}
 		}
-		c := ex.newCell(st, x)
+		c := ex.newCell(st, x, fr.id)
 		st.cells[c] = tv(vc.sorts.Zero(c.sort))
 		if n, ok := types.Unalias(et).Underlying().(*types.Array); ok {
 			// arrays: a sequence literal of zero values
@@ -970,7 +970,7 @@ func (ex *Exec) instr(fr *Frame, ins ssa.Instruction, pred *ssa.BasicBlock, st *
 		base := ex.toTerm(st, ex.val(fr, st, x.X), x.X.Type())
 		stt := x.X.Type().Underlying().(*types.Struct)
 		ss := vc.sorts.SortOf(x.X.Type())
-		fr.vals[x] = tv(Term{app(fieldSel(ss, stt.Field(x.Field).Name()), base.S), vc.sorts.SortOf(stt.Field(x.Field).Type())})
+		fr.vals[x] = tv(Term{vc.sel(ss, stt.Field(x.Field).Name(), base.S), vc.sorts.SortOf(stt.Field(x.Field).Type())})
 	case *ssa.IndexAddr:
 		base := ex.val(fr, st, x.X)
 		idx := ex.toTerm(st, ex.val(fr, st, x.Index), nil)
@@ -1508,4 +1508,21 @@ func eqTerm(a, b string) string {
 		return "false"
 	}
 	return app("=", a, b)
+}
+
+// sel builds a field selection, simplifying selection from a constructor.
+func (vc *VC) sel(structSort, field string, base string) string {
+	pre := "(mk_" + structSort + " "
+	if strings.HasPrefix(base, pre) && strings.HasSuffix(base, ")") {
+		args := splitSexp(base[len(pre) : len(base)-1])
+		si := vc.sorts.StructInfo(structSort)
+		if si != nil && len(args) == len(si.fields) {
+			for i, f := range si.fields {
+				if f.name == field {
+					return args[i]
+				}
+			}
+		}
+	}
+	return app(fieldSel(structSort, field), base)
 }
